@@ -35,7 +35,13 @@ def refine_up_to_maturity(build_finer_grid, maturity, jump_times, *jump_values):
     :return: the refined jump times and values (without the point at maturity, which is added by the caller)
     """
     times = np.append(jump_times, maturity)
-    values = [np.append(v, v[-1] if v.size else 0.0) for v in jump_values]
+    # the values (one row per dimension for the copula simulators) stay at their last level, 0 without any jump
+    values = [
+        np.concatenate(
+            (v, v[..., -1:] if v.shape[-1] else np.zeros(v.shape[:-1] + (1,))), axis=-1
+        )
+        for v in jump_values
+    ]
     refined = build_finer_grid(times, *values)
     return tuple(r[..., :-1] for r in refined)
 
